@@ -229,6 +229,8 @@ fn main() {
             Ok(v) => format!("Ok {} {}", v.coefficient(), v.n_frac_digits()),
             Err(e) => format!("Err {e:?}"),
         });
+        #[cfg(feature = "full")]
+        {
         t(&mut out, "serde", || match serde_json::to_string(&x) {
             Ok(j) => match serde_json::from_str::<Decimal>(&j) {
                 Ok(v) => format!("{j} {} {}", v.coefficient(), v.n_frac_digits()),
@@ -236,6 +238,9 @@ fn main() {
             },
             Err(e) => format!("Err {e}"),
         });
+        }
+        #[cfg(not(feature = "full"))]
+        out.push_str("serde=X|");
         // floats
         t(&mut out, "to_f64", || format!("{:x}", f64::from(x).to_bits()));
         t(&mut out, "to_f32", || format!("{:x}", f32::from(x).to_bits()));
@@ -267,6 +272,8 @@ fn main() {
             Ok(v) => format!("Ok {} {}", v.coefficient(), v.n_frac_digits()),
             Err(e) => format!("Err {e:?}"),
         });
+        #[cfg(feature = "full")]
+        {
         // rkyv (derived impl, or the manual one with feature packed)
         t(&mut out, "rkyv", || {
             use rkyv::Deserialize;
@@ -295,6 +302,9 @@ fn main() {
                 _ => "Err check".to_string(),
             }
         });
+        }
+        #[cfg(not(feature = "full"))]
+        out.push_str("rkyv=X|");
         let _ = writeln!(outl, "{out}");
         let _ = outl.flush();
     }
